@@ -43,12 +43,31 @@ def base_configs(rnd):
     res = {"R_BD": {"pair": "R_BD", "J": 1, "P": 1, "mass": 2.42, "width": 0.03}, "R_BC": {"pair": "R_BC", "J": 1, "P": 1, "mass": 4.2, "width": 0.1},
            "R_CD": {"pair": "R_CD", "J": 1, "P": 1, "mass": 2.46, "width": 0.05}}
     out.append(("ident", res, (1, -1), {"B": (1, -1), "C": (1, -1), "D": (0, -1)}, False, M0, mf, {"identical_particles": [["B", "C"]]}))
+    # massless vector final particle (photon: helicities restricted by `spins: [-1, 1]`).  Its alignment has to be a pure z rotation
+    # (C02_massless_alignment_is_phase): a reference frame that mixes helicities (the canonical frame) gets truncated to the allowed ones
+    mf = {"B": 0.0, "C": 0.49, "D": 0.14}; M0 = 3.1
+    res = {"R_CD": {"pair": "R_CD", "J": 2, "P": 1, "mass": 1.5, "width": 0.1}, "R_BC": {"pair": "R_BC", "J": 1, "P": 1, "mass": 1.4, "width": 0.2},
+           "R_BD": {"pair": "R_BD", "J": 1, "P": 1, "mass": 1.2, "width": 0.1}}
+    out.append(("photon", res, (1, -1), {"B": (1, -1), "C": (0, -1), "D": (0, -1)}, False, M0, mf, None, {"B": {"spins": [-1, 1]}}))
+    # photon + two declared-identical scalars (J/psi -> gamma pi0 pi0): identical particles force the parent-rest-frame reference
+    # also in the default alignment
+    mf = {"B": 0.0, "C": 0.135, "D": 0.135}; M0 = 3.097
+    res = {"R_CD": {"pair": "R_CD", "J": 2, "P": 1, "mass": 1.27, "width": 0.18}, "R_BC": {"pair": "R_BC", "J": 1, "P": -1, "mass": 0.78, "width": 0.1}}
+    out.append(("photon_ident", res, (1, -1), {"B": (1, -1), "C": (0, -1), "D": (0, -1)}, False, M0, mf, {"identical_particles": [["C", "D"]]},
+                {"B": {"spins": [-1, 1]}}))
     return out
+
+
+# quick tier: the massless configurations run a reduced matrix with a moving parent only (every option acts there)
+QUICK_MASSLESS = {"photon": ("perm0_base", "perm0_align_center_mass", "perm0_random_z_off", "perm0_center_mass", "perm0_random_z_off+align_cm",
+                             "perm1_base", "perm1_align_cm+center_mass"),
+                  "photon_ident": ("perm0_base", "perm0_random_z_off", "perm0_center_mass", "perm0_align_center_mass", "perm1_base")}
 
 
 def variants(res, rnd):
     names = list(res)
     perms = [names, names[::-1], names[1:] + names[:1]]
+    perms = [p_ for i, p_ in enumerate(perms) if p_ not in perms[:i]]
     opts = [("base", {}), ("align_center_mass", {"align_ref": "center_mass"}), ("random_z", {"random_z": True}),
             ("center_mass", {"center_mass": True}), ("only_left_angle", {"only_left_angle": True}),
             ("random_z_off", {"random_z": False}),
@@ -139,8 +158,27 @@ def alignment_cases(ctx, tag, vname, frame, base_el, el, nev, meta0):
                 ctx.distinct.add((tag, vname, frame, "alignment", f, k[0], e))
 
 
-def run_base(ctx, rnd, tag, res, top, fin, weak, M0, mf, cases, nev, dopts=None):
+def massless_cases(ctx, cases, tag, vname, frame, el, nev, meta0, massless):
+    """hypothesis of C02_massless_alignment_is_phase on the code's aligned angles: the alignment of a massless final particle
+    (restricted helicities) is a pure z rotation, beta = 0 (the stored beta is 2 atan2(|x10|, |x11|) of a product of boosts with
+    rapidity ~ 18, hence the tolerance)"""
+    for k in sorted(el):
+        if k[1] not in massless:
+            continue
+        for e in range(nev):
+            be = el[k][e][1]
+            cases.append(("M_%s_%s_%s_%s_%d_e%d" % (tag, vname.replace("+", "_"), frame, k[1], sorted(el).index(k), e),
+                          "(Rabs (%s) <= %s)%%R" % (Rq(be), Rq(1e-6)), "interval with (i_prec 90)",
+                          dict(meta0, layer="massless_alignment", final=k[1], chain=list(k[0]), event=e, aligned=list(el[k][e]))))
+            ctx.count("alignment:massless_is_phase")
+            ctx.evaluations += 1
+            ctx.distinct.add((tag, vname, frame, "massless_alignment", k, e))
+
+
+def run_base(ctx, rnd, tag, res, top, fin, weak, M0, mf, cases, nev, dopts=None, fextra=None):
     from tf_pwa.config_loader import ConfigLoader
+    massless = [k for k in fin if mf[k] == 0.0]
+    only = QUICK_MASSLESS.get(tag) if ctx.tier == "quick" else None
     p4 = ampkit.gen_events(M0, mf, nev, rnd.randrange(10 ** 6))
     # also a boosted copy: the parent moves, so random_z / center_mass actually do something
     vel = np.array([0.2, -0.3, 0.4])
@@ -148,8 +186,12 @@ def run_base(ctx, rnd, tag, res, top, fin, weak, M0, mf, cases, nev, dopts=None)
     base = None
     pars = None
     for vname, order, opts in variants(res, rnd):
+        if only is not None and vname not in only:
+            continue
         r2 = {k: res[k] for k in order}
         cfg = ampkit.three_body_config(M0, mf, r2, top=top, fin=fin, decay_opts=({k: {"p_break": True} for k in r2} if weak else None), data_opts=dict(opts, **(dopts or {})))
+        for k, v in (fextra or {}).items():
+            cfg["particle"]["$finals"][k].update(v)
         config = ConfigLoader(cfg)
         amp = config.get_amplitude()
         if pars is None:
@@ -157,6 +199,8 @@ def run_base(ctx, rnd, tag, res, top, fin, weak, M0, mf, cases, nev, dopts=None)
         amp.set_params(pars)
         ctx.count("variant:" + vname.split("_", 1)[1])
         for frame, q4 in (("rest", p4), ("moving", p4m)):
+            if only is not None and frame == "rest":
+                continue
             data = config.data.cal_angle(q4)
             dens = np.array(amp(data))
             per, full = ampkit.chain_amps(amp, data)
@@ -168,6 +212,9 @@ def run_base(ctx, rnd, tag, res, top, fin, weak, M0, mf, cases, nev, dopts=None)
             key = frame
             spin_finals = [k for k, v in fin.items() if v[0] != 0]
             el = align_elements(data, nev, spin_finals)
+            if massless:
+                massless_cases(ctx, cases, tag, vname, frame, el, nev, meta0, massless)
+                el = {k: v for k, v in el.items() if k[1] not in massless}
             if vname == "perm0_base":
                 base = base or {}
                 base[key] = dens
@@ -267,7 +314,7 @@ def run(ctx):
     cases = []
     nev = 2 if ctx.tier == "quick" else 5
     for (tag, res, top, fin, weak, M0, mf, *rest) in base_configs(rnd):
-        run_base(ctx, rnd, tag, res, top, fin, weak, M0, mf, cases, nev, dopts=(rest[0] if rest else None))
+        run_base(ctx, rnd, tag, res, top, fin, weak, M0, mf, cases, nev, dopts=(rest[0] if rest else None), fextra=(rest[1] if len(rest) > 1 else None))
         ctx.sample({"config_tag": tag, "resonances": res, "top": top, "finals": fin})
     known_reproducers(ctx)
     for c in cases[:: max(1, len(cases) // 4)]:
